@@ -9,6 +9,7 @@ import RLV.Model.Hist
 import RLV.Model.Keys
 import RLV.Model.MLoop
 import RLV.Model.Kill
+import RLV.Model.Move
 import RLV.Model.Loop
 import RLV.Model.Menu
 import RLV.Model.MenuSel
@@ -294,6 +295,20 @@ def step (line : String) : String :=
         let s2 ← Kill.yank { s1 with cur := c1 }
         pure (s1.line, c1.pos, s1.kill, s2.line) : Core.G _) with
     | .ok (l1, c1, k, l2) => s!"ok {showNats l1} {c1} {showNats k} {showNats l2}"
+    | .error e => e.show
+  | ["move", cmd, n, l, cp] =>
+    let s0 : Kill.St := { line := parseNats l, cur := ⟨cp.toInt?.getD 0, -1⟩ }
+    let k : Int := n.toInt?.getD 1
+    let r : Core.G Kill.St := match cmd with
+      | "forward-char" => Move.forwardChar s0 k
+      | "backward-char" => Move.backwardChar s0 k
+      | "forward-word" => Move.forwardWord s0 k
+      | "backward-word" => Move.backwardWord s0 k
+      | "beginning-of-line" => Move.beginningOfLine s0
+      | "end-of-line" => Move.endOfLine s0
+      | _ => pure s0
+    match r with
+    | .ok s1 => s!"ok {showNats s1.line} {(Core.checkAppend s1.line s1.cur).pos}"
     | .error e => e.show
   | ["loop", flags, regs, mtbl, ltbl, chunks] =>
     -- the whole main loop on probe commands and bind macros: flags = emacs, nonInc, isearch;
